@@ -243,6 +243,21 @@ kl = [dict(e(AM, "Mantis8::swapModes", "ardm_swap_modes"), this=THM),
       dict(e(AM, "Mantis8::setTweak", "ardm_set_tweak_null", [], None, {"tweak": {"null": True}, "len": {"const": 8}}), this=THM)]
 mods.append({"name": "ArduinoMantisKey", "imports": ["ArduinoMantisLeaf"], "entries": kl})
 
+# ---------------------------------------------------------------- vector back end: Skinny-128 parallel ECB, 128-bit vectors
+V128 = "src/skinny128-parallel-vec128.c"
+LW = {"lanewise": True}; LW0 = {"lanewise": True, "const": 0}
+vl = [e(V128, "skinny128_sbox_four", "v128p_sbox", [], 8, {"u": LW, "v": LW0, "s": LW0, "t": LW0}),
+      e(V128, "skinny128_inv_sbox_four", "v128p_inv_sbox", [], 8, {"u": LW, "v": LW0, "s": LW0, "t": LW0})]
+mods.append({"name": "Vec128Leaf", "entries": vl})
+vp = []
+for fn, nm in (("_skinny128_parallel_encrypt_vec128", "v128p_enc"), ("_skinny128_parallel_decrypt_vec128", "v128p_dec")):
+    P = {"output": {"bytes": 64, "out": True}, "input": {"bytes": 64}}
+    rows = ["row0", "row1", "row2", "row3"]
+    d = pe(V128, fn, f"{nm}_load", "seg", 0, [], P, rows); d["veclanes"] = "explicit"; vp.append(d)
+    vp.append(pe(V128, fn, f"{nm}_round", "loop", 0, [], P, rows, rows + ["schedule_0"]))
+    d = pe(V128, fn, f"{nm}_store", "seg", 1, [], P, ["output"], rows); d["veclanes"] = "explicit"; vp.append(d)
+mods.append({"name": "Vec128Pieces", "entries": vp})
+
 # ---------------------------------------------------------------- counters
 mods.append({"name": "CounterLeaf", "entries": [
     e(S128, "skinny128_inc_counter", "skinny128_inc_counter", [], None, {"counter": {"bytes": 16}}),
